@@ -75,9 +75,13 @@ fn gen_order_args(r: &mut Rng, _unused: bool) -> Vec<V> {
     }).collect()
 }
 fn gen_date_num(r: &mut Rng) -> f64 {
+    // boundary dates: epoch, year 1 / 0 / -1, year 9999 / 10000 (RFC 2822 limit), chrono's NaiveDate limits and beyond
+    const EDGE: &[f64] = &[0.0, -0.0, 1.0, -1.0, 0.5, 0.25, 19000.75, -719162.0, -719163.0, -719528.0, -719529.0, -800000.0, 2932896.0, 2932896.99999999,
+        2932897.0, 3000000.0, 5000000.0, -96465658.0, -96465659.0, 95026601.0, 95026601.999, 95026602.0, 1e10, -1e10, 1e300, -1e300, f64::NAN, f64::INFINITY, f64::NEG_INFINITY,
+        106751991167.0, -106751991168.0, 9.3e10];
     match r.below(8) {
         0 => gen_num(r),
-        1 => *r.pick(&[0.0, -0.0, 1.0, -1.0, 0.5, 0.25, 19000.75, -719162.0, 2932896.0, 2932896.99999999, -719528.0, -96465658.0, 95026601.0, 95026602.0, -96465659.0, 1e300, f64::NAN, f64::INFINITY]),
+        1 | 2 => *r.pick(EDGE),
         _ => { let days = (r.below(3652059) as i64 - 719162) as f64; let ms = r.below(86400000) as f64; if r.chance(1, 3) { days } else { (days * 86400000.0 + ms) / 86400000.0 } }
     }
 }
@@ -91,6 +95,9 @@ pub fn gen_args(r: &mut Rng, name: &str) -> Vec<V> {
         "insert" => { let h = gen_hay(r); let n = gen_needle(r, &h); vec![h, n, gen_idx(r)] }
         "contains" | "count" | "find" | "remove" => { let h = gen_hay(r); let n = gen_needle(r, &h); vec![h, n] }
         "replace" => { let h = gen_hay(r); let n = gen_needle(r, &h); if r.chance(1, 3) { vec![h, n] } else { let t = gen_needle(r, &h); vec![h, n, t] } }
+        // values that are `==` across kinds (1, '1', true, 1.0, '1.0' …): the case in which a hash-based
+        // implementation disagrees with equality
+        "unique" if r.chance(3, 4) => { let n = 2 + r.below(7); vec![V::Array((0..n).map(|_| match r.below(9) { 0 => num(1.0), 1 => s("1"), 2 => V::Boolean(true), 3 => s("1.0"), 4 => num(0.0), 5 => s("0"), 6 => V::Boolean(false), 7 => s(""), _ => num(-0.0) }).collect())] }
         "length" | "reverse" | "unique" | "empty" | "bool" | "str" => vec![if r.chance(2, 3) { gen_hay(r) } else { gen_val(r, 2) }],
         "all" | "any" => { let n = r.below(5); let v: Vec<V> = (0..n).map(|_| match r.below(5) { 0 => V::Boolean(true), 1 => V::Boolean(false), 2 => num(1.0), 3 => s("true"), _ => gen_small_val(r) }).collect(); if r.chance(1, 2) { vec![V::Array(v)] } else { v } }
         "sort" => vec![V::Array(gen_order_args(r, true))],
@@ -141,3 +148,24 @@ pub fn gen_call_line(r: &mut Rng, name: &str, prefix: &str) -> String {
     p.join(" ")
 }
 pub fn builtin_names() -> Vec<String> { builtins().into_iter().map(|f| f.name).collect() }
+
+/// `dcall`: calls with an argument count inside the registered arity and arguments of the DOCUMENTED kinds only
+/// (C10: such a call must never answer WrongParameterCount)
+pub fn gen_dcall_line(r: &mut Rng, f: &slac::function::Function) -> String {
+    use slac::function::Arity;
+    let (masks, variadic_doc) = crate::tables::doc_masks(&f.params);
+    let n = match f.arity { Arity::Polyadic { required, optional } => required + r.usize(optional + 1), Arity::Variadic => 1 + r.usize(4), Arity::None => 0 };
+    let args: Vec<V> = (0..n).map(|p| {
+        let mask = if variadic_doc { 15 } else { masks.get(p).copied().unwrap_or(15) };
+        let kinds: Vec<u32> = (0..4).filter(|k| (mask >> k) & 1 == 1).collect();
+        match *r.pick(&kinds) {
+            0 => V::Boolean(r.chance(1, 2)),
+            1 => if r.chance(1, 2) { s(HAYS[r.usize(HAYS.len())]) } else { V::String(gen_str(r)) },
+            2 => if r.chance(1, 2) { num(*r.pick(IDX)) } else { num(gen_num(r)) },
+            _ => { let k = r.below(4); V::Array((0..k).map(|_| gen_small_val(r)).collect()) }
+        }
+    }).collect();
+    let mut p = vec![format!("call {} {} {}", STRING_OFFSET, hex(&f.name), args.len())];
+    p.extend(args.iter().map(show_in));
+    p.join(" ")
+}
